@@ -10,7 +10,7 @@ def _path(a, mids, b):
 def tri_star(k=1):
     """three cells around one inner junction J; spokes with k interior points; outer ring with one point per arc"""
     J, S, R = 90, [11, 12, 13], [21, 22, 23]
-    sp = [[30 + 10 * i + j for j in range(k)] for i in range(3)]        # interior points of spoke i (from J outwards)
+    sp = [[1000 + 100 * i + j for j in range(k)] for i in range(3)]        # interior points of spoke i (from J outwards)
     spokes = [_path(J, sp[i], S[i]) for i in range(3)]
     cids = [7, 3, 5]
     cycles = {}
@@ -28,11 +28,11 @@ def double_y(k=1):
     """two inner junctions J1, J2 joined by an interface; four cells (top, bottom, left, right)"""
     J1, J2, A, B, C, D = 61, 64, 15, 18, 16, 19
     XT, XB, XL, XR = 71, 72, 73, 74
-    mid = [80 + j for j in range(k)]
-    m1 = [40 + j for j in range(k)]
-    m2 = [45 + j for j in range(k)]
-    m3 = [50 + j for j in range(k)]
-    m4 = [55 + j for j in range(k)]
+    mid = [1800 + j for j in range(k)]
+    m1 = [1400 + j for j in range(k)]
+    m2 = [1500 + j for j in range(k)]
+    m3 = [1600 + j for j in range(k)]
+    m4 = [1700 + j for j in range(k)]
     i_mid = _path(J1, mid, J2)
     i_a, i_b = _path(J1, m1, A), _path(J1, m2, B)
     i_c, i_d = _path(J2, m3, C), _path(J2, m4, D)
@@ -53,7 +53,7 @@ def double_y(k=1):
 def four_fold(k=1):
     """four cells around one inner junction"""
     J, S, R = 77, [31, 32, 33, 34], [41, 42, 43, 44]
-    sp = [[50 + 10 * i + j for j in range(k)] for i in range(4)]
+    sp = [[2000 + 100 * i + j for j in range(k)] for i in range(4)]
     spokes = [_path(J, sp[i], S[i]) for i in range(4)]
     cids = [8, 1, 6, 3]
     cycles = {}
@@ -71,7 +71,7 @@ def n_fold(n, k=1):
     J = 77
     S = [31 + i for i in range(n)]
     R = [41 + i for i in range(n)]
-    sp = [[100 + 10 * i + j for j in range(k)] for i in range(n)]
+    sp = [[3000 + 100 * i + j for j in range(k)] for i in range(n)]
     spokes = [_path(J, sp[i], S[i]) for i in range(n)]
     cids = [8, 1, 6, 3, 12, 5, 9][:n]
     cycles = {}
@@ -97,7 +97,7 @@ def border_fan(k=1):
     so it has three cells but only two internal interfaces => no equations"""
     P, Q0, Q1, Q2, Q3 = 55, 20, 21, 22, 23
     X = [26, 27, 28]
-    s = [[60 + 10 * i + j for j in range(k)] for i in range(4)]
+    s = [[4000 + 100 * i + j for j in range(k)] for i in range(4)]
     spoke = [_path(P, s[i], [Q0, Q1, Q2, Q3][i]) for i in range(4)]
     c = [4, 9, 2]
     cycles = {c[i]: spoke[i] + [X[i]] + spoke[i + 1][::-1][:-1] for i in range(3)}
@@ -112,7 +112,7 @@ def tri_star_ear(k=1):
     internal interface (its only shared interface has no end with three cells)"""
     J, S, R = 90, [11, 12, 13], [21, 22, 23]
     Ra, Rb, E1, E2 = 24, 25, 81, 82
-    sp = [[30 + 10 * i + j for j in range(k)] for i in range(3)]
+    sp = [[1000 + 100 * i + j for j in range(k)] for i in range(3)]
     spokes = [_path(J, sp[i], S[i]) for i in range(3)]
     cids = [7, 3, 5]
     ear = 12
@@ -133,7 +133,7 @@ def tri_star_two_ears(k=1):
     J, S, R = 90, [11, 12, 13], [21, 22, 23]
     Ra, Rb, E1, E2 = 24, 25, 81, 82
     Rc, Rd, E3, E4 = 26, 27, 83, 84
-    sp = [[30 + 10 * i + j for j in range(k)] for i in range(3)]
+    sp = [[1000 + 100 * i + j for j in range(k)] for i in range(3)]
     spokes = [_path(J, sp[i], S[i]) for i in range(3)]
     cids = [7, 3, 5]
     ear1, ear2 = 12, 14
